@@ -45,6 +45,7 @@ package vm
 //@   ensures[debit-once] result == nil ==> vm.context.balance == store(old(vm.context.balance), block.TokenStandard, old(vm.context.balance[block.TokenStandard]) - val(block.Amount))
 //@   ensures[rejected-unchanged] result != nil ==> vm.context.balance == old(vm.context.balance)
 //@   ensures[amount-untouched] block.Amount == old(block.Amount) && val(block.Amount) == old(val(block.Amount)) && block.TokenStandard == old(block.TokenStandard)
+//@   at-call ValidateSendBlock assert[validates-and-re-encodes-the-block-that-is-stored] arg1 == block
 //@   modifies vm.context.balance, block.Data
 
 // The receive credits the amount and token of the stored send block (not any field of the receive block) and marks exactly
